@@ -19,7 +19,8 @@ func init() {
 			"(W) write-through: every ResponseWriter.Write forwards its own slice with exactly one underlying Write, outside any loop and without channel hand-off; every io.Reader on the upload path performs at most one underlying Read per call, outside any loop; " +
 			"(P) the body travels through two synchronous io.Pipes whose ends are wired as designed; (C) chunked framing is forced before serialisation; (F) the reverse proxy's FlushInterval is negative or in (0,1s]; " +
 			"(M) the HTML shim splice does exactly one bounded Read before it returns; (S) the response is published from WriteHeader (not at Close). " +
-			"(T) no buffering/non-transparent stdlib handler (TimeoutHandler, ServeMux, …) is built into the chain and writer types offer no new optional interfaces.",
+			"(T) no buffering/non-transparent stdlib handler (TimeoutHandler, ServeMux, …) is built into the chain and writer types offer no new optional interfaces. " +
+			"(R) the replay reader of a retried upload returns buffered bytes without first reading the source (a backend that waits for the client to see the flushed chunk would never produce more); (L) the metrics mutex is not held across an RPC reachable from the response path and the serialiser never waits for metrics.",
 		Assumptions: []string{"io.Pipe is synchronous and unbuffered; net/http's chunked writer flushes per write; httputil.ReverseProxy honours FlushInterval"},
 		Run:         runC05,
 	})
@@ -127,6 +128,11 @@ func runC05(c *Ctx) {
 	c.Rule("C05.T", "no buffering stdlib handler on the pass-through chain; writer types offer no new optional interfaces", 5)
 	ruleTransparentChain(c, p, "C05.T")
 	ruleWriterMethodSets(c, p, "C05.T")
+	c.Rule("C05.R", "a retried upload hands replayed chunks on without waiting for more backend output", 1)
+	ruleReplayDoesNotWaitForSource(c, p, "C05.R")
+	c.Rule("C05.L", "the metrics mutex is not on the streaming path", 2)
+	ruleNoLockAcrossRPC(c, p, "C05.L")
+	ruleSerialiserDoesNotBlockOnMetrics(c, p, "C05.L")
 	c.Rule("C05.S", "the response is published as soon as the status is set", 1)
 
 	// ---- C05.B
